@@ -1460,6 +1460,18 @@ def db_retry(func: Callable) -> Callable:
 
     @wraps(func)
     def wrapper(self: "RedunBackendDb", *args, **kwargs):
+        if getattr(self, "_db_retries_active", False):
+            # Nested call of another retried operation. Rolling back here would also discard the
+            # uncommitted writes of the outer operation, so let the outermost operation retry.
+            return func(self, *args, **kwargs)
+
+        self._db_retries_active = True
+        try:
+            return retry_loop(self, *args, **kwargs)
+        finally:
+            self._db_retries_active = False
+
+    def retry_loop(self: "RedunBackendDb", *args, **kwargs):
         self._db_retries_attempt = 0
         while True:
             try:
